@@ -564,6 +564,7 @@ func (c *Client) toOffline() {
 	select {
 	case _, ok := <-c.writeSem:
 		if !ok {
+			c.dropRead()
 			return // ErrClosed
 		}
 		c.readConn.Close()
@@ -571,6 +572,7 @@ func (c *Client) toOffline() {
 		c.readConn.Close() // interrupt write
 		_, ok := <-c.writeSem
 		if !ok {
+			c.dropRead()
 			return // ErrClosed
 		}
 	}
@@ -578,16 +580,21 @@ func (c *Client) toOffline() {
 	clearSignalChan(c.offlineSig)
 	c.writeSem <- connPending
 
-	c.readConn = nil
-	c.bigMessage = nil // lost
-	c.bufr = nil
-	c.peek = nil // applied to prevous r, if any
+	c.dropRead()
 
 	if ack := c.pingAck.Swap(nil); ack != nil {
 		*ack <- ErrBreak
 	}
 
 	c.unorderedTxs.breakAll()
+}
+
+// DropRead abandons the read state of the connection.
+func (c *Client) dropRead() {
+	c.readConn = nil
+	c.bigMessage = nil // lost
+	c.bufr = nil
+	c.peek = nil // applied to prevous r, if any
 }
 
 // LockWrite acquires the write semaphore.
@@ -1212,7 +1219,18 @@ func (c *Client) readSlices() (message, topic []byte, err error) {
 		c.bigMessage = nil
 
 		err = c.discard(remaining)
-		if err != nil {
+		switch {
+		case err == nil:
+			break
+
+		case errors.Is(err, net.ErrClosed) || errors.Is(err, io.ErrClosedPipe):
+			// closed by either Close, Disconnect, or failed write
+			c.toOffline()
+			if err := c.connect(); err != nil {
+				return nil, nil, err
+			}
+
+		default:
 			c.toOffline()
 			return nil, nil, err
 		}
